@@ -284,7 +284,9 @@ func (e *Explorer) runPath(sol *Solver, decs []Decision) (pr *PathResult, newWor
 	defer sol.EndPath()
 	defer func() {
 		pr.Steps = in.steps
-		pr.Symbolic = len(in.decs) > 0 || len(in.pc) > 0
+		// non-trivial: the path carries symbolic inputs (it stands for a set of
+		// inputs decided by the solver / the simplifier), not only case splits
+		pr.Symbolic = len(in.modelVars()) > 0
 		newWork = in.newWork
 		funcs = in.funcsSeen
 		if r := recover(); r != nil {
